@@ -43,6 +43,10 @@ pub enum Line {
 #[derive(Clone, Debug, PartialEq, Serialize, Deserialize)]
 pub struct Case {
     pub lines: Vec<Line>,
+    /// run the server with extended monitoring (the default of the server binary): subscriptions
+    /// and locks are then mirrored under $SYS by the server itself
+    #[serde(default)]
+    pub extended_monitoring: bool,
 }
 
 fn mutate(mut b: Vec<u8>, m: &Mutation) -> Vec<Vec<u8>> {
@@ -254,7 +258,8 @@ impl Hostile {
 
 async fn run_case(case: &Case, _kfs: &KnownFindings) -> Result<CaseReport, Failure> {
     let panics_before = crate::util::panic_count();
-    let ws = WireServer::start("C17", |_| {}).await.map_err(|e| Failure::new("c17.server", "server starts", e))?;
+    let em = case.extended_monitoring;
+    let ws = WireServer::start("C17", |c| c.extended_monitoring = em).await.map_err(|e| Failure::new("c17.server", "server starts", e))?;
     let res = drive(case, &ws).await;
     let crashed = ws.server.is_finished();
     let stop = ws.stop().await;
@@ -337,6 +342,9 @@ async fn drive(case: &Case, ws: &WireServer) -> Result<CaseReport, Failure> {
     for k in kinds {
         rep.classes.push(k);
     }
+    if case.extended_monitoring {
+        rep.classes.push("extended_monitoring_on");
+    }
     if h.closed_by_server > 0 {
         rep.classes.push("hostile_session_closed_by_server");
     }
@@ -410,7 +418,7 @@ pub fn run(cfg: &RunCfg) -> i32 {
         cfg,
         "random",
         n,
-        move || proptest::collection::vec(line(), 1..=max).prop_map(|lines| Case { lines }).boxed(),
+        move || (proptest::collection::vec(line(), 1..=max), any::<bool>()).prop_map(|(lines, extended_monitoring)| Case { lines, extended_monitoring }).boxed(),
         |c: &Case| check_case(c, &kfs),
     );
     check.add_part(
@@ -429,7 +437,7 @@ pub fn run(cfg: &RunCfg) -> i32 {
             &crate::fuzzrun::Campaign {
                 target: "session_ops",
                 server_feature: true,
-                runs: (300_000.0 * cfg.scale) as u64,
+                runs: (1_000_000.0 * cfg.scale) as u64,
                 max_len: 2000,
                 rule: "coverage guided libFuzzer campaign, socket free: bytes split into lines are fed to the protocol handler of a fresh in-process server per iteration, a witness uses the server's API before and after, the server must stop cleanly; any panic aborts and is reported with the input; evaluations = executed inputs, distinct non-trivial = inputs that reached new coverage",
             },
